@@ -11,7 +11,7 @@ Space
                      DESIGN section 5 (= mc/alphabets.py, written out with explicit numbers so that a case is self-contained);
                      CGMY y in {-0.5, 0, 0.5, 1, 1.2, 1.5} x (c,g,m) in {(1,15,20), (0.1,5,7), (0.5,6,6)}; (r,d) in
                      {(0.02,0), (0.05,0.02)}; spot 100 (thorough: also spots 1 and 2500, rates (0,0) and (0.1,0), intermediate
-                     y in {0.25, 0.75, 1.35}, nine sigma values, and a second strike lattice shifted by half a step).  Pricers with their default constants
+                     y in {0.25, 0.75, 1.35}, nine sigma values, and three more strike lattices shifted by 1/4, 1/2, 3/4 of a step).  Pricers with their default constants
                      (COS n = 10000, L = 10; FFT alpha = 1.5, eta = 0.25, N = 2^18).
                      Vector strikes (the whole lattice in one call) and scalar strikes (every 4th lattice point in the quick
                      tier, every point in the thorough tier, through call / put / digital / forward and through
@@ -64,6 +64,17 @@ import numpy as np
 from mc import alphabets as A
 from mc import core
 from mc.c18_util import Budget
+
+# Performance only: the pricers allocate and free 5-40 MB temporaries thousands of times; with glibc's defaults every one is an
+# mmap/munmap pair and the run spends 2/3 of its time in page faults.  Keep large blocks on the heap and do not trim it.
+try:  # pragma: no cover
+    import ctypes
+
+    _libc = ctypes.CDLL("libc.so.6")
+    _libc.mallopt(-3, 1 << 30)  # M_MMAP_THRESHOLD
+    _libc.mallopt(-1, 1 << 31 - 1)  # M_TRIM_THRESHOLD
+except Exception:  # noqa: BLE001
+    pass
 
 PID = "C18"
 LEVEL = "exploration"
@@ -158,7 +169,7 @@ def cases(tier):
     for sigma, T in ((0.0, 1.0), (5e-9, 1.0), (0.2, 0.0), (0.2, 5e-9), (0.0, 0.0)):
         for (r, d) in A.RATES:
             out.append({"sub": "cf-degenerate", "sigma": sigma, "T": T, "r": r, "d": d, "spot": 100.0})
-    for shift in ((0.0, 0.5) if thorough else (0.0,)):
+    for shift in ((0.0, 0.5, 0.25, 0.75) if thorough else (0.0,)):
         for T in MATURITIES:
             for spec in _model_specs(tier):
                 out.append({"sub": "model", "spec": spec, "T": T, "shift": shift, "dens_m": 512 if thorough else 256,
@@ -310,7 +321,7 @@ def _check_model(sh, case):
     n = int(getattr(cp, "n", 10_000))
     hw = 0.5 * (b - a)
     kk = np.linspace(-0.6 * hw, 0.6 * hw, NSTRIKES)
-    kk = kk + float(case.get("shift", 0.0)) * (kk[1] - kk[0])  # thorough tier: a second lattice, half a step to the right
+    kk = kk + float(case.get("shift", 0.0)) * (kk[1] - kk[0])  # thorough tier: further lattices, shifted by a fraction of a step
     K = S0 * np.exp(kk)
     # the FFT pricer's own constants enter its budget (Carr-Madan damping, spacing, size)
     fp = _call_lib(sh, f"{PID}:call:FFTPricer", icls, FFTPricer, model)
@@ -405,9 +416,15 @@ def _check_model(sh, case):
     M = int(case.get("dens_m", 256))
     z = np.linspace(a, b, M + 1)
     s_pts = S0 * np.exp(z)
-    dens = _call_lib(sh, f"{PID}:call:COSPricer.density", icls, cp.density, T, s_pts)
+    dens = []
+    for lo in range(0, M + 1, 128):  # blocks of 128 points: the pricer builds a (points x n) matrix
+        blk = _call_lib(sh, f"{PID}:call:COSPricer.density", icls, cp.density, T, s_pts[lo: lo + 128])
+        if blk is None:
+            dens = None
+            break
+        dens.append(_vec(blk, len(s_pts[lo: lo + 128])))
     if dens is not None:
-        dens = _vec(dens, M + 1)
+        dens = np.concatenate(dens)
         flog = dens * s_pts
         t_den = B.tau_den()
         if math.isfinite(t_den) and t_den <= TOL_REL * max(1.0, B.D):
